@@ -275,6 +275,8 @@ def run(repo: Repo, rep: Report, tier: str) -> None:
     _c01._r01_5(repo, Only(rep, {"R01.5"}))
     from ..core import siblings as _sib2
     _sib2.check_own_method_tests(repo, rep, "R14.11")
+    from ..core import siblings as _sib3
+    _sib3.check_guard_mirror(repo, rep, "R15.10")
 
 def _forwarding(repo: Repo, rep: Report) -> None:
     """R14.6: the flag lists used for re-dispatch forward every parameter under its own name."""
@@ -346,3 +348,6 @@ LEVEL_TEXT += _ADDENDUM
 _ADD6 = " R14.11: every guard of a nested add_pack_method / add_unpack_method asks for the class's own definition (get_class_that_defines_method), never hasattr."
 EXPLANATION += _ADD6
 LEVEL_TEXT += _ADD6
+_ADD11 = ' Borrowed: R15.10.'
+EXPLANATION += _ADD11
+LEVEL_TEXT += _ADD11
